@@ -1861,6 +1861,15 @@ class Pipeline:
         for f in drop:
             pipeline.drop(f=f)
 
+        if output_names is not None:
+            dropped = [n for n in output_names if n not in pipeline.output_to_func]
+            if dropped:
+                msg = (
+                    f"Cannot construct a partial pipeline with `{inputs=}` that computes"
+                    f" `{dropped}`, these outputs are not reachable from the inputs."
+                )
+                raise ValueError(msg)
+
         if inputs is not None:
             new_root_args = set(pipeline.topological_generations.root_args)
             # Root arguments that keep their default value do not have to be provided.
